@@ -17,7 +17,7 @@ import (
 func init() {
 	eng.Register(&eng.Check{
 		ID:          "C02",
-		Rule:        "E1 bounded product for typed equality: literal alphabet L (every integer in [-130,260] and the 8/16/32/64-bit boundaries, each in 8 spellings: bare, quoted decimal, +signed, 0x, 0X, 0o, legacy octal, 0b, underscore; floats rendered FROM every float value of the data set in shortest/exact/hex/exponent forms; the ParseBool spellings; every string of length<=3 over {a / \" ` \\ space e-acute 0} in every legal quoting; ill-typed and out-of-range junk) x data D (ALL 256 int8 and uint8 values [thorough: all 65536 int16/uint16], boundary sets of the wider widths, float32/float64 specials (+-0, subnormals, min/max, 2^24+1, 2^53+1, 0.1, 1/3), bools, all strings<=3, non-scalars; each plain, named, behind a pointer, in a typed struct field, as json.Number); `a == lit` evaluated on the real code and on the reference (math/big arithmetic, own float-literal reader; strconv not used); plus the five exported Coerce* functions called directly on every literal. Distinct by construction; non-trivial = literal is valid for the value's kind (the comparison itself was decided, not a coercion error).",
+		Rule:        "E1 bounded product for typed equality: literal alphabet L (every integer in [-130,260] and the 8/16/32/64-bit boundaries, each in 8 spellings: bare, quoted decimal, +signed, 0x, 0X, 0o, legacy octal, 0b, underscore; floats rendered FROM every float value of the data set in shortest/exact/hex/exponent forms; the ParseBool spellings; every string of length<=3 over {a / \" ` \\ space e-acute 0} in every legal quoting; ill-typed and out-of-range junk) x data D (ALL 256 int8 and uint8 values [thorough: all 65536 int16/uint16], boundary sets of the wider widths, float32/float64 specials (+-0, subnormals, min/max, 2^24+1, 2^53+1, 0.1, 1/3), bools, all strings<=3, non-scalars; each plain, named, behind a pointer, in a typed struct field, as json.Number); `a == lit` evaluated on the real code and on the reference (math/big arithmetic, own float-literal reader; strconv not used); plus the five exported Coerce* functions called directly on every literal; plus the unknown-value route: `zz == lit` on an empty datum with WithUnknownValue(v) for every value v of the data set (the exhaustive 8/16-bit blocks thinned 1:23, rotating with the literal), against the reference. Distinct by construction; non-trivial = literal is valid for the value's kind (the comparison itself was decided, not a coercion error).",
 		Assumptions: []string{"reference reads literals with math/big (exact integers, correctly rounded floats of the field's width)", "exhaustive for 8-bit (thorough: 16-bit) integers, boundary alphabets for wider kinds and floats"},
 		Run:         runC02,
 	})
@@ -256,6 +256,9 @@ func runC02(c *eng.Ctx) {
 	for i, d := range ds {
 		data[i] = Build(d).Interface()
 	}
+	vals := c02Values(c.Thorough())
+	emptyDoc := NMap(TStr, TAny)
+	emptyDatum := Build(emptyDoc).Interface()
 	c.MaxOf("literals", int64(len(ls)))
 	c.MaxOf("documents", int64(len(ds)))
 	for li, l := range ls {
@@ -293,6 +296,39 @@ func runC02(c *eng.Ctx) {
 				continue
 			}
 			c.Count(SetStr(got.class))
+		}
+		// the same comparison when the value does not come from the datum but from WithUnknownValue (absent selector): it must
+		// be compared in its own type exactly like a resolved value (a json.Number is a number there too)
+		ue := &Match{Sel: []string{"zz"}, Op: OpEq, Lit: l.text, Style: l.style}
+		usrc := Render(ue)
+		for vi, v := range vals {
+			big := !v.T.Named && (v.T.K == KInt8 || v.T.K == KUint8 || v.T.K == KInt16 || v.T.K == KUint16)
+			if big && vi%23 != li%23 {
+				continue
+			}
+			if !c.Want("d", -1-vi) {
+				continue
+			}
+			cfg := Cfg{Tag: "bexpr", Unknown: v}
+			uev, err := bexpr.CreateEvaluator(usrc, optsFor(cfg)...)
+			if err != nil {
+				c.Violate(eng.Violation{Kind: "harness-expression-rejected", Key: "create: " + usrc, Coords: map[string]int{"l": li}, Detail: err.Error()})
+				break
+			}
+			want := NewRef(emptyDoc, cfg).Eval(ue, nil)
+			got := observe(uev, emptyDatum)
+			c.R.Evaluations++
+			c.R.Traces++
+			c.R.States++
+			if want != E {
+				c.R.Nontrivial++
+			}
+			if got.panicked || got.class&want == 0 {
+				c.Violate(eng.Violation{Kind: "typed-equality-mismatch-on-unknown-value", Key: caseKey(usrc, emptyDoc, cfg), Coords: map[string]int{"l": li, "d": -1 - vi}, Case: describe(usrc, emptyDoc, cfg),
+					Expected: SetStr(want), Observed: got.String(), Detail: got.msg})
+				continue
+			}
+			c.Count("unknown-route:" + SetStr(got.class))
 		}
 		c.Sample(map[string]any{"expression": src, "documents": len(ds)})
 	}
